@@ -89,6 +89,13 @@ CLAIMED = {
         note="NOT DECIDED by this technique family (no contract within reach, nothing substituted): a crash between open(...,'wb') and the completed write; interleavings of concurrent request_profile calls. Known finding: cache key <org>-<fid> ignores the URL. The induction over histories is argued from the per-call contract, not machine-checked; the bounded companion enumerates all histories of length <= 3 (4 thorough) over 8 server behaviours with client restarts on a real cache file.",
         technique="contract with ghost file state and abstract parser (pyvc + z3); bounded enumeration of histories on real files",
         engine="pyvc"),
+    "C06": dict(
+        category="proof",
+        text="Proved on the real code with the model classes really instantiated and converters abstract: signon stores exactly the supplied password and user id, the configured language/appid/appver, FI iff ORG is set, CLIENTUID iff configured and version >= 103 (version symbolic 100..299); each of the five transaction-wrapper builders routes every argument to its own element (INCTRAN absent iff transactions are not asked for investment statements) and sets a transaction id; each wrap_stmtrq arm yields one wrapper per request, in order, carrying that request's fields and the client's bank/broker id; __init__ and serialize refuse close_elements=False for versions >= 200; serialize passes the configured or overridden version to make_header and chooses the body form by close_elements. The grouping in request_statements and the wire round trip are covered by a bounded composition run parsed back by the library.",
+        design_ref="DESIGN.md 9 (C06)",
+        note="request_statements' sort/groupby assembly is bounded only (not under a symbolic contract): 11 versions x pretty x close_elements x ORG/FID x CLIENTUID x request multisets with credentials/ids incl. & < > quotes and non-ASCII, dates with offsets, all flags. A-UUID: uuid4 ids are distinct. Known finding KF-C01-unclosed-empty-aggregate shared with C01.",
+        technique="contracts on the real builders with heap model instances and abstract converters (pyvc + z3); bounded compose-and-parse-back run",
+        engine="pyvc"),
 }
 
 
